@@ -389,6 +389,122 @@ func gen(a Args, out *Out) {
 		})
 	}
 
+	// 8. heap shapes: 5..15 pending timers with random deadlines (many array shapes); each
+	// one in turn is cancelled on a fresh copy of the same heap and the worker unlinks it
+	// (heap.Remove from the root, inner positions, leaves; the last element may come from
+	// another subtree and have to move UP), the array is probed, then every deadline is
+	// visited tick by tick: every remaining timer on its due tick, in due order.
+	shapes := 7
+	if a.Thorough() {
+		shapes = 60
+	}
+	for sh := 0; sh < shapes; sh++ {
+		r := rng.Fork()
+		n := r.Range(5, 15)
+		if sh == 0 {
+			n = 7
+		}
+		dls := make([]int64, n)
+		for i := range dls {
+			dls[i] = int64(r.Range(1, 40))
+		}
+		if sh == 0 {
+			dls = []int64{1, 10, 2, 11, 12, 20, 3} // array order = start order here
+		} else if sh%2 == 1 {
+			// lopsided: started in array order (no sifting), one subtree of the root with
+			// large keys, the other with small ones, so that the last element moved into a
+			// hole of the large subtree is smaller than the hole's parent
+			big := r.Intn(2) // which child of the root heads the large subtree
+			side := make([]int, n)
+			dls[0] = 1
+			for i := 1; i < n; i++ {
+				par := (i - 1) / 2
+				if par == 0 {
+					side[i] = (i - 1 + big) % 2
+				} else {
+					side[i] = side[par]
+				}
+				if side[i] == 0 {
+					dls[i] = dls[par] + int64(r.Range(6, 9))
+				} else {
+					dls[i] = dls[par] + int64(r.Range(0, 2))
+				}
+				if dls[i] > 40 {
+					dls[i] = 40
+				}
+			}
+		}
+		extra := r.Chance(1, 3)
+		for victim := 1; victim <= n; victim++ {
+			both(func(impl int64) {
+				h := drv.NewHist(impl, pos(r), 0)
+				for _, d := range dls {
+					h.Start(d)
+					h.HandleAdd()
+				}
+				h.Probe()
+				h.Cancel(int64(victim))
+				h.HandleDel()
+				h.Probe()
+				if extra {
+					h.Start(dls[victim-1]) // reuse the hole's key
+					h.HandleAdd()
+					h.Probe()
+				}
+				for tck := 0; tck < 42; tck++ {
+					h.Adv(1)
+				}
+				h.Size()
+				h.Probe()
+				emit("heap-shapes", h)
+			})
+		}
+	}
+
+	// 9. stale index: a due timer is cancelled, the tick is handled first (the worker drops
+	// the node), then a start request is handled (a new node takes the freed array
+	// position), and only THEN the old cancel request: it must not remove anybody; all
+	// remaining timers still fire on their due ticks.
+	for k := 0; k < 16*scale && k < 16*10; k++ {
+		both(func(impl int64) {
+			r := rng.Fork()
+			h := drv.NewHist(impl, pos(r), 0)
+			others := r.Range(1, 6)
+			d := int64(r.Range(1, 4))
+			var ids []int64
+			vpos := r.Intn(others + 1)
+			var victim int64
+			for i := 0; i <= others; i++ {
+				if i == vpos {
+					victim = h.Start(d)
+				} else {
+					ids = append(ids, h.Start(d+int64(r.Range(1, 25))))
+				}
+				h.HandleAdd()
+			}
+			h.Cancel(victim)
+			h.Adv(d) // expiry handled first: the cancelled node is dropped
+			h.Probe()
+			for j := 0; j < r.Range(1, 3); j++ {
+				h.Start(int64(r.Range(1, 25)))
+				h.HandleAdd()
+			}
+			h.Probe()
+			h.HandleDel() // the stale cancel request
+			h.Probe()
+			if r.Bool() && len(ids) > 0 {
+				h.Cancel(ids[r.Intn(len(ids))])
+				h.HandleDel()
+			}
+			for tck := 0; tck < 52; tck++ {
+				h.Adv(1)
+			}
+			h.Size()
+			h.Probe()
+			emit("stale-index", h)
+		})
+	}
+
 	// 7. the REAL worker goroutine with nobody reading Chan(): the worker gets stuck
 	// delivering, every id is cancelled, then Chan() is drained; counting only (see drv.Live)
 	for k := 0; k < 1*scale && k < 4; k++ {
